@@ -419,6 +419,17 @@ func MonC04() *Mon {
 		VerifyBlock: func(n *Node, ok bool) {
 			lastVerify[n] = &ver{ok: ok, h: n.D.BlockIndex, v: n.D.ViewNumber, have: true}
 		},
+		VerifyTxs: func(n *Node, txs []dbft.Transaction[vt.H]) {
+			// the block put before the verification callback is the proposal's block: its transactions, all of them, in order
+			d := n.D
+			same := len(txs) == len(d.TransactionHashes)
+			for i := 0; same && i < len(txs); i++ {
+				same = txs[i] != nil && txs[i].Hash() == d.TransactionHashes[i]
+			}
+			if !same && !n.Faulty {
+				n.W.Fail("C04", fmt.Sprintf("node %d height %d view %d: the verification callback was shown a block that does not hold the proposal's %d transactions (a missing or foreign transaction)", n.ID, d.BlockIndex, d.ViewNumber, len(d.TransactionHashes)), "verified-other-block")
+			}
+		},
 		Broadcast: func(n *Node, p Payload) {
 			if n.Faulty {
 				return
